@@ -236,6 +236,11 @@ class MultiStepReplayBuffer(ReplayBuffer):
         n_step_reward: torch.Tensor = first_transition[self.reward_key]
         n_step_reward = n_step_reward.clone()
 
+        # Nothing after a terminal first transition belongs to its episode
+        first_done: torch.Tensor = first_transition[self.done_key]
+        if first_done.bool().any():
+            return first_transition
+
         # Get the last next_state and done flag
         for i, transition in enumerate(list(self.n_step_buffer)[1:]):
             # Add discounted reward
